@@ -416,3 +416,31 @@ Proof.
     intros k _. unfold concat. destruct (Nat.ltb_spec (m1 + k) m1); [lia|]. replace (m1 + k - m1)%nat with k by lia. reflexivity.
   - intros k Hk. unfold concat. destruct (Nat.ltb_spec k m1); [reflexivity|lia].
 Qed.
+
+(* the same on the generated definitions: SE(x,z; ls) * SE(t,s; lst) = SE((x,t),(z,s); (ls,lst)) — the multitask kernel with two
+   SquareExponential factors IS a SquareExponential kernel in dim + dimt coordinates *)
+Definition cat (m : nat) (f g : nat -> R) (k : nat) : R := if Nat.ltb k m then f k else g (k - m)%nat.
+Lemma sqrt_sq_bigsum n (f : nat -> R) : sqrt (bigsum n (fun k => f k ^ 2)) ^ 2 = bigsum n (fun k => f k ^ 2).
+Proof. simpl. rewrite Rmult_1_r. apply sqrt_sqrt. apply bigsum_nonneg. intros k _. apply pow2_ge_0. Qed.
+Theorem SE_product_is_SE dim dimt x z t s ls lst lsq lcu alpha lsq' lcu' alpha' lsq'' lcu'' alpha'' i :
+  SquareExponential._covariance dim x z ls lsq lcu alpha i * SquareExponential._covariance dimt t s lst lsq' lcu' alpha' i
+  = SquareExponential._covariance (dim + dimt) (fun j => cat dim (x j) (t j)) (fun j => cat dim (z j) (s j)) (cat dim ls lst)
+      lsq'' lcu'' alpha'' i.
+Proof.
+  unfold SquareExponential._covariance. rewrite !sqrt_sq_bigsum. rewrite <- exp_plus. f_equal. rewrite bigsum_app.
+  rewrite (bigsum_ext dim (fun k => ((cat dim (x i) (t i) k - cat dim (z i) (s i) k) / cat dim ls lst k) ^ 2)
+                          (fun k => ((x i k - z i k) / ls k) ^ 2)).
+  - rewrite (bigsum_ext dimt (fun k => ((cat dim (x i) (t i) (dim + k) - cat dim (z i) (s i) (dim + k)) / cat dim ls lst (dim + k)) ^ 2)
+                             (fun k => ((t i k - s i k) / lst k) ^ 2)); [ring|].
+    intros k _. unfold cat. destruct (Nat.ltb_spec (dim + k) dim); [lia|]. replace (dim + k - dim)%nat with k by lia. reflexivity.
+  - intros k Hk. unfold cat. destruct (Nat.ltb_spec k dim); [reflexivity|lia].
+Qed.
+
+(* the form of Props/C03_psd.v (physical Gram matrix with a factor), its hypothesis on the task matrix discharged *)
+Theorem multitask_se_task_factored n m (P L : nat -> nat -> R) dimt ts lst lsqt lcut alphat pg tg ph th :
+  factored n m P L ->
+  psdR n (fun a b => GenMultitask._covariance (fun _ => P a b)
+                       (fun i => SquareExponential._covariance dimt (fun _ => ts a) (fun _ => ts b) lst lsqt lcut alphat i) pg tg ph th 0%nat).
+Proof.
+  intros HF. apply (hadamard_psd n m P L _ HF). apply schur_psd, SE_pair_gram_schur_.
+Qed.
